@@ -87,6 +87,18 @@ impl RootCatalog {
         schema.add_table(name, columns, ordered_pk_ids)
     }
 
+    /// The id the next object created in the schema will get.
+    pub fn next_id(&self, schema_id: SchemaId) -> u32 {
+        let inner = self.inner.lock().unwrap();
+        inner.schemas.get(&schema_id).unwrap().next_id()
+    }
+
+    /// Makes sure the next object created in the schema gets an id not lower than `id`.
+    pub fn advance_next_id(&self, schema_id: SchemaId, id: u32) {
+        let mut inner = self.inner.lock().unwrap();
+        inner.schemas.get_mut(&schema_id).unwrap().advance_next_id(id);
+    }
+
     pub fn add_view(
         &self,
         schema_id: SchemaId,
